@@ -179,6 +179,20 @@ def check(chk):
     chk.judge(ok, 'C20.confirm', pr, 'connection.keyspace recorded only when the server answered with a RESULT', 'the connection records the keyspace without confirmation')
     errs = [c for c in calls_cb(pr, 'callback') if len(c.args) == 2 and src(c.args[1]) != 'None']
     chk.judge(len(errs) >= 2, 'C20.confirm', pr, 'failure arms pass the error to the callback', 'a failure arm reports success')
+    # ... and what they pass cannot be None: the value of a call whose callee has a bare `return` path may be
+    for c_ in errs:
+        a1 = c_.args[1]
+        if isinstance(a1, ast.Name):
+            defs_ = [x.value for x in body_walk(pr) if isinstance(x, ast.Assign) and any(isinstance(t, ast.Name) and t.id == a1.id for t in x.targets)]
+            a1 = defs_[0] if len(defs_) == 1 else a1
+        if isinstance(a1, ast.Call) and isinstance(a1.func, ast.Attribute) and src(a1.func.value) == 'self' and conn.has('Connection.%s' % a1.func.attr):
+            callee = conn.func('Connection.%s' % a1.func.attr)
+            may_none = any(isinstance(r, ast.Return) and (r.value is None or (isinstance(r.value, ast.Constant) and r.value.value is None)) for r in body_walk(callee))
+            chk.judge(not may_none, 'C20.confirm', c_, 'process_result: the error handed to the callback is never None (%s)' % src(c_.args[1])[:50],
+                      'the error is the return value of self.%s(), which returns None when the connection is already defunct or closed: a USE that failed because the '
+                      'connection died is reported as success for that connection, and the switch as a whole reports no error' % a1.func.attr)
+        else:
+            chk.ok('C20.confirm', c_, 'process_result: error argument %s' % src(c_.args[1])[:50], nontrivial=False)
     s = src(sa)
     chk.judge('if not keyspace or keyspace == self.keyspace' in s, 'C20.confirm', sa, 'no request when the keyspace is already selected', 'shortcut changed')
     sb = conn.func('Connection.set_keyspace_blocking')
